@@ -41,3 +41,37 @@ pub fn each_line(mut f: impl FnMut(&str) -> String) {
 pub fn opt_i64(s: &str) -> Option<i64> {
     if s == "N" { None } else { s.parse().ok() }
 }
+
+/// Like `each_line`, but a watchdog ends the process when one case runs longer than `limit_ms`:
+/// it prints `TIMEOUT` as that case's result line and exits 0; the driver resumes after it.
+pub fn each_line_watchdog(limit_ms: u64, mut f: impl FnMut(&str) -> String) {
+    use std::sync::atomic::{AtomicU64, Ordering};
+    use std::sync::Arc;
+    use std::time::{Duration, Instant};
+    let started = Arc::new(AtomicU64::new(0)); // 0 = idle, else ms since t0 (+1)
+    let t0 = Instant::now();
+    {
+        let started = started.clone();
+        std::thread::spawn(move || loop {
+            std::thread::sleep(Duration::from_millis(50));
+            let s = started.load(Ordering::SeqCst);
+            if s != 0 && (t0.elapsed().as_millis() as u64 + 1).saturating_sub(s) > limit_ms {
+                println!("TIMEOUT");
+                let _ = io::stdout().flush();
+                std::process::exit(0);
+            }
+        });
+    }
+    let stdin = io::stdin();
+    for line in stdin.lock().lines() {
+        let Ok(line) = line else { break };
+        if line.is_empty() {
+            continue;
+        }
+        started.store(t0.elapsed().as_millis() as u64 + 1, Ordering::SeqCst);
+        let r = f(&line);
+        started.store(0, Ordering::SeqCst);
+        println!("{}", r.replace('\n', "\\n"));
+    }
+    let _ = io::stdout().flush();
+}
